@@ -43,6 +43,14 @@ class HExc(Exception):
         self.key = key
 
 
+class HBase(BaseException):
+    """a failure that is not an Exception subclass (the flush body of a client shutting down, ...)"""
+
+    def __init__(self, key):
+        BaseException.__init__(self, key)
+        self.key = key
+
+
 class HardFlush(Exception):
     pass
 
@@ -216,8 +224,8 @@ class HBatch(BatchBase):
         env.log.append(["flush", self.kind, self.no, sorted(repr(i.arg) for i in self.items)])
         cut = len(self.items) // 2      # a raising flush body completes the first half of its items
         for n, i in enumerate(self.items):
-            if self.fault == "raise" and n >= cut:
-                raise env.exc(("flush", self.kind, self.no))
+            if self.fault in ("raise", "raise_base") and n >= cut:
+                raise env.exc(("flush" if self.fault == "raise" else "flushbase", self.kind, self.no))
             env.item_action[i.uid] = i.outcome
             if i.outcome == "ok":
                 i.set_value(["v", self.kind, i.arg])
@@ -318,7 +326,7 @@ class Env(object):
     def exc(self, key):
         e = self.excs.get(key)
         if e is None:
-            e = self.excs[key] = HExc(key)
+            e = self.excs[key] = (HBase if key[0] == "flushbase" else HExc)(key)
         return e
 
     # ---- relations over the await / sync-call graph ---------------------------
@@ -368,7 +376,7 @@ class Env(object):
 
 def has_sync(task):
     for s in walk_stmts(task["body"]):
-        if s["op"] in ("sync", "itemvalue"):
+        if s["op"] in ("sync", "itemvalue", "syncref"):
             return True
         if s["op"] == "yield":
             for leaf in walk_struct(s["y"]):
@@ -516,7 +524,7 @@ def leave_body(env, rec):
 
 
 def exc_key(e):
-    if isinstance(e, HExc):
+    if isinstance(e, (HExc, HBase)):
         return e.key
     if isinstance(e, HardFlush):
         return ["hard"] + list(e.args[0])
@@ -525,7 +533,7 @@ def exc_key(e):
     return type(e).__name__
 
 
-CATCHABLE = (HExc, AssertionError, TypeError, HardFlush, CtxFail)
+CATCHABLE = (HExc, HBase, AssertionError, TypeError, HardFlush, CtxFail)
 
 
 def exec_block(env, rec, me, body):
@@ -568,7 +576,7 @@ def exec_block(env, rec, me, body):
                     if f.is_computed() and f._error is not None:
                         first = f
                         break
-                if isinstance(e, HExc):
+                if isinstance(e, (HExc, HBase)):
                     if first is None:
                         env.v("C02.identity", "task %r received %r but no yielded future failed" % (tid, e.key))
                     elif first._error is not e:
@@ -638,6 +646,24 @@ def exec_block(env, rec, me, body):
                 env.waits.pop()
                 if scheduler.get_active_task() is not me:
                     env.v("C08.active", "get_active_task() is not task %r after its synchronous call returned" % (tid,))
+        elif op == "syncref":
+            # a task created elsewhere (by an ancestor's mk) is computed synchronously here: h.value()
+            srec = env.recs[st["tid"]]
+            srec.yielded = True
+            if tid not in srec.parents:
+                srec.parents.append(tid)
+            env.waits.append(srec)
+            try:
+                val = srec.handle.value()
+                rec.got.append(["sync", shape(val)])
+            except CATCHABLE as e:
+                if not st["catch"] or rec.closing:
+                    raise
+                rec.got.append(["syncexc", canon(exc_key(e))])
+            finally:
+                env.waits.pop()
+                if scheduler.get_active_task() is not me:
+                    env.v("C08.active", "get_active_task() is not task %r after it computed a task created elsewhere synchronously" % (tid,))
         elif op == "itemvalue":
             # item.value() called directly inside a body: flushes the item's batch out of band, without the scheduler
             leaf = st["item"]
@@ -867,7 +893,7 @@ def run_program(prog, check_c04=False, check_c06=False, reset=True, options=None
     except CATCHABLE as e:
         env.outcome = ["exc", canon(exc_key(e))]
         env.raised = e
-        if isinstance(e, HExc) and rec.handle is not None and rec.handle.is_computed() and rec.handle._error is not e:
+        if isinstance(e, (HExc, HBase)) and rec.handle is not None and rec.handle.is_computed() and rec.handle._error is not e:
             env.v("C02.identity", "value() raised %r, a different object than the task's error()" % (e.key,))
     except BaseException as e:
         env.outcome = ["escaped", type(e).__name__, str(e)[:200]]
